@@ -3,6 +3,11 @@ import Driver.Run
 import Driver.C10
 import Driver.C14
 import Driver.C20
+import Driver.C17
+import Driver.C06
+import Driver.C15
+import Driver.C19
+import Driver.C18
 
 open Driver
 
@@ -17,9 +22,17 @@ def main (args : List String) : IO Unit :=
       | cmd :: a => (st, c14 cmd a)
       | _ => (st, "bad-op"))
   | ["stats"] => runLoop () (fun st toks => (st, statsCmd toks))
+  | ["mqueue"] => runLoop (RootSim.MQueue.init 0) mqueueStep
+  | ["msgauto"] => runLoop TraceSt.none msgautoStep
+  | ["barrier"] => runLoop ({} : BarSt) barrierStep
+  | ["topo"] => runLoop ({} : TopoState) c19
   | ["heap"] => runLoop ({} : HeapSt) heapStep
   | ["par"] => runLoop ({} : Driver.Run.Sys) Driver.Run.parStep
   | ["seq"] => runLoop ({} : Driver.Run.SeqSys) Driver.Run.seqStep
   | ["serial2"] => runLoop ({} : Driver.Run.Serial2) Driver.Run.serial2Step
   | ["serial"] => runLoop ({} : Driver.Run.SerialSys) Driver.Run.serStep
+  | [mode] =>
+    match randVariantOfMode mode with
+    | some v => runLoop () (fun st toks => (st, randcmd v toks))
+    | none => IO.eprintln "usage: driver <mode>"
   | _ => IO.eprintln "usage: driver <mode>"
